@@ -461,6 +461,29 @@ fn el(p: &P, b: &mut B, depth: usize, rest: &[P], used: &mut usize) -> XEl {
         }
         _ => XEl::new("rect").a("x", n(0, b)).a("y", n(1, b)).a("width", "100%").a("height", "50%"),
     };
+    // coordinates may be left out (SVG: as if 0) or be given as percentages, one axis at a time
+    if matches!(e.name.as_str(), "rect" | "circle" | "ellipse" | "image") && p.kind != 21 {
+        let (ax, ay) = if matches!(e.name.as_str(), "circle" | "ellipse") { ("cx", "cy") } else { ("x", "y") };
+        match (p.f >> 12) & 7 {
+            1 if e.get(ay).is_some() => {
+                e.attrs.retain(|(k, _)| k != ay);
+                b.f("geom.omitted-coordinate");
+            }
+            2 if e.get(ax).is_some() => {
+                e.attrs.retain(|(k, _)| k != ax);
+                b.f("geom.omitted-coordinate");
+            }
+            3 if e.get(ay).is_some() => {
+                e.set(ay, "50%");
+                b.f("geom.percent-coordinate");
+            }
+            4 if e.get(ax).is_some() => {
+                e.set(ax, "25%");
+                b.f("geom.percent-coordinate");
+            }
+            _ => {}
+        }
+    }
     presentation(&mut e, p, b);
     e
 }
@@ -718,7 +741,7 @@ impl Property for C04 {
                 }
             }
             let clause = clause.split('@').next().unwrap_or(clause);
-            const ORDER: &[&str] = &["ref.none", "use.dotted-id", "text.xy-list", "text.xy-length", "transform.space-before-paren", "root.attrs", "use.external-href", "use.xlink-href", "use.circle-target", "use.symbol", "href.xlink", "path.compact-arc-flags", "list.sign-separated", "transform.no-separator", "num.exponent", "num.plus-sign", "num.leading-dot", "num.trailing-dot", "text.textPath", "text.tspan-mixed", "text.tspans", "text.dx-list", "foreignObject", "nested-svg", "switch", "animate-child", "style.cdata", "line.omitted-coordinates", "rect.corner-radius", "length.unit-with-number-forms", "length.unit", "length.percent", "path.arcs", "path.curves", "attr.path", "attr.points", "attr.transform"];
+            const ORDER: &[&str] = &["geom.omitted-coordinate", "geom.percent-coordinate", "ref.none", "use.dotted-id", "text.xy-list", "text.xy-length", "transform.space-before-paren", "root.attrs", "use.external-href", "use.xlink-href", "use.circle-target", "use.symbol", "href.xlink", "path.compact-arc-flags", "list.sign-separated", "transform.no-separator", "num.exponent", "num.plus-sign", "num.leading-dot", "num.trailing-dot", "text.textPath", "text.tspan-mixed", "text.tspans", "text.dx-list", "foreignObject", "nested-svg", "switch", "animate-child", "style.cdata", "line.omitted-coordinates", "rect.corner-radius", "length.unit-with-number-forms", "length.unit", "length.percent", "path.arcs", "path.curves", "attr.path", "attr.points", "attr.transform"];
             let f = ORDER.iter().find(|o| c.features.iter().any(|f| f == *o)).copied().unwrap_or("plain");
             format!("c04:{clause}:{f}")
         };
